@@ -62,7 +62,7 @@ def run_simple(ctx, cases, prop, chk_filter=None, signature=None, relation=None,
                 disagreements.append({"case": ci, "op_index": oi, "ops": list(c.ops[:oi + 1]), "impl": impl[ci][oi][:600],
                                       "model": model[ci][oi][:600], "label": c.label,
                                       "explained_by_predicate_failure": bad_pred is not None})
-        if bad_pred is not None and c.in_domain:
+        if bad_pred is not None and c.judge:
             oi, v = bad_pred
             sig = signature(c, oi, v, agrees) if signature else "%s:%s:%s" % (prop, c.label, " ".join(v.split(" ")[:2]))
             failures.append({"signature": sig, "ops": list(c.ops[:oi + 1]), "impl": impl[ci][oi][:600], "model": model[ci][oi][:600],
